@@ -175,6 +175,38 @@ func runC07(c *Ctx) {
 		c.obI("R07.4", bo, "multiplication-bounded", bounded, "an integer accumulator of the q-value parser is multiplied only after an accumulator was found below a constant bound (the number of digits taken into account is bounded, so n and d cannot overflow)", "the accumulator is multiplied once per input digit without bound: 19+ digits overflow int")
 	}
 	c.obRF("R07.4", eq, "accumulators", nMul >= 2, "expectQuality accumulates numerator and denominator", fmt.Sprintf("%d multiplications", nMul))
+	// the invalid marker (a negative quality) answers malformed TEXT only, and is decided before the digits are read:
+	// once the fraction has been scanned the result is the number it denotes — whatever its size (a q above 1 is still
+	// a larger q than one below it)
+	{
+		var scanned []ssa.Instruction
+		for _, in := range instrs(eq) {
+			if cv, ok := in.(*ssa.Convert); ok && in.Parent() == eq && typeStr(cv.Type()) == "float64" {
+				if bt, isB := cv.X.Type().Underlying().(*types.Basic); isB && bt.Info()&types.IsInteger != 0 {
+					scanned = append(scanned, in)
+				}
+			}
+		}
+		c.obRF("R07.4", eq, "fraction-converted", len(scanned) >= 1, "expectQuality converts the scanned digits to a fraction", "")
+		for _, r := range realReturns(eq) {
+			neg := false
+			for _, o := range originsOf(resOf(r, 0)) {
+				if k, isK := o.V.(*ssa.Const); isK && k.Value != nil && constant.Sign(k.Value) < 0 {
+					neg = true
+				}
+			}
+			if !neg {
+				continue
+			}
+			late := false
+			for _, m := range scanned {
+				if pathExists(eq, m, r, nil, nil) {
+					late = true
+				}
+			}
+			c.obI("R07.4", r, "invalid-marker-only-before-the-digits", !late, "expectQuality answers 'invalid' (a negative quality) only before it has scanned the fraction: a number that was read is returned as that number", "the invalid marker can be returned after the fraction was computed (a value judged too large, say): the range is dropped instead of ranked")
+		}
+	}
 	// digit loop exits
 	for _, in := range instrs(eq) {
 		phi, ok := in.(*ssa.Phi)
